@@ -350,6 +350,8 @@ class SymArray:
             if isinstance(v, (SI, SB)):
                 return SF.lift(v)
             if isinstance(v, SF):
+                if self.dtype.itemsize == 4 and sc.AX.get('f32_store_round'):
+                    return sc.f32_round(v)
                 return v
             if isinstance(v, (int, bool)):
                 v = float(v)
